@@ -50,7 +50,7 @@ FLOORS = {
                            "stateful_histories_where_state_shows": 90,
                            "stateful_histories_with_a_template_served_again": 55,
                            "stateful_sets_dir": 6, "stateful_sets_deflated": 6,
-                           "stateful_sets_stored": 6}},
+                           "stateful_sets_stored": 6, "sets_with_non_ascii_identifiers": 12}},
     "thorough": {"evaluations": 40000, "distinct": 4000,
                  "counters": {"mode_dir": 3000, "mode_deflated": 3000, "mode_stored": 3000,
                               "templates_compared": 40000, "sets_with_inheritance_or_import": 3000,
@@ -62,7 +62,7 @@ FLOORS = {
                               "stateful_histories_where_state_shows": 1800,
                               "stateful_histories_with_a_template_served_again": 1100,
                               "stateful_sets_dir": 120, "stateful_sets_deflated": 120,
-                              "stateful_sets_stored": 120}},
+                              "stateful_sets_stored": 120, "sets_with_non_ascii_identifiers": 400}},
 }
 
 _n = 0
@@ -472,6 +472,16 @@ def run(ctx):
             kinds = ("inherit", "incimp", "inherit", "incimp", "stmt", "expr", "loop")
             case = corpus.gen_case(rng, kinds=kinds)
             case = rename_case(case, RENAMES[i % len(RENAMES)])
+            if case["kind"] == "stmt" and i % 2:
+                # non-ASCII identifiers (variables, loop and set targets, macro parameters,
+                # keyword arguments): they become identifiers of the generated module
+                from vt.gen import stmtgen
+
+                mp = {"a": "\u043f\u0435\u0440\u0435\u043c", "b": "\u53d8\u91cf", "c": "\u00f1u",
+                      "d": "gr\u00f6\u00dfe", "e": "\u00e9e"}
+                case = dict(case, asts={n: stmtgen.rename_body(b, mp) for n, b in case["asts"].items()},
+                            data={mp.get(k, k): v for k, v in case["data"].items()})
+                ctx.count("sets_with_non_ascii_identifiers")
             if case["kind"] in ("inherit", "incimp"):
                 ctx.count("sets_with_inheritance_or_import")
             mode = modes[i % 3]
